@@ -196,7 +196,11 @@ func (c *c20) isolation(tape *kernel.Tape, n int) {
 		}
 		// ---- invariants after every step ----
 		if d := base.diff(); d != "" {
-			c.viol("global-mutated", strings.SplitN(d, ":", 2)[0], "after %q: package-level default changed: %s", desc, d)
+			site := strings.SplitN(d, ":", 2)[0]
+			if strings.HasPrefix(site, "op.DefaultEndpoints.") {
+				site = "op.DefaultEndpoints"
+			}
+			c.viol("global-mutated", site, "after %q: package-level default changed: %s", desc, d)
 			world.RestoreDefaultEndpoints()
 		}
 		if (hc.CheckRedirect == nil) != (hcBefore.CheckRedirect == nil) || hc.Transport != hcBefore.Transport || hc.Timeout != hcBefore.Timeout || hc.Jar != hcBefore.Jar {
